@@ -161,7 +161,7 @@ func runC07(c *Ctx) {
 		})
 	}
 	c.Floor("C07.i-immutable-config", 1)
-	c.Floor("C07.ii-atomics-only", 6)
+	c.Floor("C07.ii-atomics-only", 4)
 
 	// ---- (iv) published snapshots ---------------------------------------------------
 	c07Snapshots(c)
@@ -249,6 +249,30 @@ func c07Snapshots(c *Ctx) {
 					c.OK("C07.iv-snapshot-immutable", mk, cs.In.Pos(), "re-publishes the unchanged map "+mv.String()+" of the loaded snapshot")
 					continue
 				}
+				// (b') parameter of a publishing helper: lifted to every call site of the helper
+				if vals, ats := c.ActualsAt(mv); len(vals) > 0 {
+					bad := ""
+					// inside the helper: no write to the parameter after publication
+					if pv, isP := strip(mv).V.(*ssa.Parameter); isP {
+						walkUses(pv, func(in ssa.Instruction) {
+							if u, ok := in.(*ssa.MapUpdate); ok && MayFollow(cs.In, u) {
+								bad = "map parameter is updated at " + c.pos(u.Pos()) + " after it was published"
+							}
+						})
+					}
+					for i, av := range vals {
+						am, ok := av.V.(*ssa.MakeMap)
+						if !ok {
+							bad = "caller at " + c.pos(ats[i].Pos()) + " passes a map it did not make itself: " + abbreviate(av.String())
+							continue
+						}
+						if w := freshMapMisuse(c, am, ats[i], ats[i]); w != "" {
+							bad = w
+						}
+					}
+					c.Check(bad == "", "C07.iv-snapshot-immutable", mk, cs.In.Pos(), "map made by each caller of the publishing helper, not written after the call, no other escaping use", bad)
+					continue
+				}
 				// (b) fresh map of this function, never written after publication, no other escape
 				mm, ok := mv.V.(*ssa.MakeMap)
 				if !ok || mm.Parent() != cs.Fn {
@@ -288,7 +312,7 @@ func c07Snapshots(c *Ctx) {
 			}
 		}
 	}
-	c.Floor("C07.iv-snapshot-immutable", 6)
+	c.Floor("C07.iv-snapshot-immutable", 3)
 
 	// no write to a loaded snapshot's maps: expected 0, with a positive example
 	ws := snapshotMapWrites(c, fns, "readOnly")
@@ -581,4 +605,42 @@ func isReaderSide(c *Ctx, fn *ssa.Function) bool {
 		}
 	}
 	return c.readerSide[fn]
+}
+
+// freshMapMisuse checks the uses of a freshly made map in its function: no
+// update/delete may follow the publication point, and the only call it may be
+// passed to is allowedCall (the publishing helper). Returns "" if fine.
+func freshMapMisuse(c *Ctx, mm *ssa.MakeMap, pubPoint ssa.Instruction, allowedCall ssa.Instruction) string {
+	bad := ""
+	walkUses(mm, func(in ssa.Instruction) {
+		switch u := in.(type) {
+		case *ssa.MapUpdate:
+			if MayFollow(pubPoint, u) {
+				bad = "map is updated at " + c.pos(u.Pos()) + " after it was published"
+			}
+		case *ssa.Lookup, *ssa.Range, *ssa.DebugRef:
+		case *ssa.Store:
+			if a := c.E(u.Addr); a.Op != "field" || fieldOwner(a) != "readOnly" {
+				bad = "map escapes through a store at " + c.pos(u.Pos())
+			}
+		case ssa.CallInstruction:
+			if in == allowedCall {
+				return
+			}
+			if bi, ok := u.Common().Value.(*ssa.Builtin); ok {
+				if bi.Name() == "delete" && MayFollow(pubPoint, u) {
+					bad = "map entry deleted at " + c.pos(u.Pos()) + " after publication"
+				}
+				if bi.Name() == "len" || bi.Name() == "delete" {
+					return
+				}
+			}
+			bad = "map escapes to a call at " + c.pos(u.Pos())
+		case *ssa.Phi:
+			bad = "map flows through a phi (aliased) at " + c.pos(u.Pos())
+		default:
+			bad = "unrecognised use of the published map at " + c.pos(in.Pos())
+		}
+	})
+	return bad
 }
